@@ -186,3 +186,93 @@ func ruleApplyWait() *Rule {
 		},
 	}
 }
+
+// ruleRestoreReconcile: C14 RESTORE-RECONCILE.
+//
+// InstallSnapshot publishes the received snapshot (Close) before it discards a log that does not match it; a kill in
+// between leaves a visible snapshot next to a log that does not reach its last index (or holds another term there).
+// restore() takes lastApplied/commitIndex/boundary from the snapshot; if it leaves such a log as it is, the node
+// rejects AppendEntries after the boundary (log too short, hint below the boundary) AND the snapshot the leader then
+// sends (nothing new), for ever. So whenever restore() has loaded a snapshot, it returns successfully only with the
+// log in line with it: the log contains the snapshot's last entry with the snapshot's last term, or does not contain
+// that index but reaches it (compacted there or beyond), or it was discarded to (index, term) of the snapshot.
+func ruleRestoreReconcile() *Rule {
+	const id = "RESTORE-RECONCILE"
+	return &Rule{
+		ID: id,
+		Text: "restore() returns successfully after loading a snapshot labelled (I, T) only if Log.DiscardEntries(I, T) was executed, or the log holds an entry at I whose term is T, " +
+			"or the log does not contain I but LastIndex() ≥ I: a log that an interrupted snapshot installation left behind is reconciled at start-up.",
+		Floor: 1,
+		Run: func(p *Program) []Obligation {
+			fn := p.Func("(*Raft).restore")
+			lii, lit := p.Field("Raft.lastIncludedIndex"), p.Field("Raft.lastIncludedTerm")
+			if fn == nil || lii == nil || lit == nil {
+				return missing(id, "(*Raft).restore")
+			}
+			mIdx, mTerm := "", ""
+			p.discover(fn, func(a *Analysis, f *Frame, in ssa.Instruction) {
+				if f.Parent != nil {
+					return
+				}
+				if s, fld := storeField(in); s != nil && fld == lii {
+					mIdx = ValueName(p.Canon(f, s.Val).S)
+				} else if s != nil && fld == lit {
+					mTerm = ValueName(p.Canon(f, s.Val).S)
+				}
+			})
+			if mIdx == "" || mTerm == "" {
+				return []Obligation{{Rule: id, Construct: "snapshot label adopted in (*Raft).restore", Pos: p.Pos(fn.Pos()), Verdict: AnchorLost, Detail: "restore() does not set the snapshot boundary"}}
+			}
+			entry := "r.log.GetEntry(" + mIdx + ")#0"
+			sp := NewSpace(
+				CmpAtom("logEnd?label", "r.log.LastIndex()", mIdx),
+				BoolAtom("containsLabel", "r.log.Contains("+mIdx+")"),
+				CmpAtom("entryAtLabel?nil", entry, "nil"),
+				CmpAtom("termAtLabel?labelTerm", entry+".Term", mTerm),
+				GhostAtom("discardedToLabel", "no", "yes"),
+				GhostAtom("snapshotLoaded", "no", "yes"),
+			)
+			a := NewAnalysis(p, sp)
+			a.Post = func(a *Analysis, f *Frame, in ssa.Instruction, st State) State {
+				if s, fld := storeField(in); s != nil && fld == lii && f.Parent == nil {
+					return sp.Assign(st, 5, 1)
+				}
+				if iface, m, c := invokeOf(in); iface == "Log" && m == "DiscardEntries" {
+					if ValueName(p.Canon(f, c.Args[0]).S) == mIdx && ValueName(p.Canon(f, c.Args[1]).S) == mTerm {
+						return sp.Assign(st, 4, 1)
+					}
+					return sp.Assign(st, 4, 0)
+				}
+				return st
+			}
+			a.Hook = func(a *Analysis, f *Frame, in ssa.Instruction, st State) State {
+				if ret, ok := exitPoint(in); ok && f.Parent == nil && returnedError(ret) == "nil" {
+					if loaded := sp.Filter(st, 5, 1<<1); !loaded.IsEmpty() {
+						a.Observe("successful return of (*Raft).restore after a snapshot was loaded", f, in, loaded)
+					}
+				}
+				return st
+			}
+			a.RunFrame(NewRootFrame(fn), sp.Assign(sp.Assign(sp.Top(), 4, 0), 5, 0))
+			out := evalObs(a, id, a.SortedObs(), func(_ *Observation, pt int) bool {
+				if sp.Val(pt, 4) == 1 {
+					return true
+				}
+				// Contains(I) and GetEntry(I) != nil are two views of one fact: valuations in which they disagree do
+				// not occur (the code tests one of them; the other atom is unconstrained)
+				present := sp.Val(pt, 1) == 1
+				if present != (sp.Val(pt, 2) == GT) {
+					return true
+				}
+				if present {
+					return sp.Val(pt, 3) == EQ
+				}
+				return sp.Val(pt, 0) != LT
+			}, []int{0, 1, 3, 4}, "the log is in line with the snapshot that was loaded (or was discarded to its label)")
+			if len(out) == 0 {
+				return []Obligation{{Rule: id, Construct: "successful return of (*Raft).restore after a snapshot was loaded", Pos: p.Pos(fn.Pos()), Verdict: AnchorLost, Detail: "no such return found"}}
+			}
+			return out
+		},
+	}
+}
